@@ -15,9 +15,9 @@ class C04(Prop):
     claimed = True
     diverge_is_violation = True
     level_text = ("Theorems for every input: the coordinate schedule of sqascii_ReadWindow tiles 1..L on both strands (context = min(C, previous n) preceding residues, new part contiguous, 1-based; reverse windows tile downwards with at most W new residues) for every sequence of (C,W) requests; "
-                  "the line-geometry tracker guarantees what it checks. The executable line-by-line model of the ascii reader (FASTA, EMBL/UniProt, GenBank/DDBJ, daemon, hmmpgmd, autodetection; block size B a parameter) is tied to the working tree by an exact differential run over Read / ReadInfo / ReadSequence / windows on both strands / ReadBlock (short and long-target) / FASTA round trip x text and digital mode x B in {1,2,3,7,64,4096,random}, "
+                  "the line-geometry tracker guarantees what it checks; for FASTA and every pair of read-block sizes B1,B2 >= 1: nextchar, every header loop, header_fasta and the WHOLE of sqascii_ReadInfo (header + residue-counting loop + end_fasta) return the same status and the same ESL_SQ and leave similar handles (readInfo_block_size_independent; the counting loop is proved equal to a byte fold over the rest of the file that does not mention B: readinfo_loop_is_file_fold). The executable line-by-line model of the ascii reader (FASTA, EMBL/UniProt, GenBank/DDBJ, daemon, hmmpgmd, autodetection; block size B a parameter) is tied to the working tree by an exact differential run over Read / ReadInfo / ReadSequence / windows on both strands / ReadBlock (short and long-target) / FASTA round trip x text and digital mode x B in {1,2,3,7,64,4096,random}, "
                   "and agreement monitors (records equal across read paths, block sizes and modes; offsets are the true byte positions; windows reassemble the sequence; reverse strand = reverse complement; write+re-read reproduces the records) give the concrete failing input.")
-    level_note = ("Block-size independence, Read/ReadInfo/ReadSequence agreement, true offsets and layout independence are established by the differential run and the monitors, not by a theorem about the whole reader (only the window schedule, the offset arithmetic and the tracker are theorems). "
+    level_note = ("Block-size independence is a theorem for the FASTA header parser and for the whole of ReadInfo (FASTA); for Read / ReadSequence (the same loop plus addbuf's copying), ReadWindow and the line-based formats it is established by the differential run and the monitors, as are Read/ReadInfo/ReadSequence agreement, true offsets and layout independence (theorems there: the window schedule, the offset arithmetic, the tracker, seebuf = byte fold, single-step agreement lemmas). "
                   "FASTA, EMBL/UniProt, GenBank/DDBJ, daemon, hmmpgmd, suffix/first-line autodetection and ReadBlock are inside the model; the same files are also read through a real gzip -dc pipe and through standard input (emulated with freopen in a child) and compared with the model; the alignment-as-sequences branch is not modelled. Known: on a pipe the four offsets come from a failing ftello() (known_findings.d/C04.json), only they are excluded from the comparison there. Known finding: the bytes/residues-per-line tracker accepts a longer last line (reverse windows then fail) - see known_findings.d/C04.json.")
     assumptions = ["fread returns min(B, remaining) bytes; allocation never fails (eslEMEM paths not modelled)",
                    "the model mirrors esl_sqio_ascii.c by hand; fidelity is checked by the differential run only",
